@@ -19,7 +19,7 @@ theorem snarf_days (n : Int) (hn : -366 ≤ n ∧ n ≤ 366) : snarfShift (toStr
   have h := strtol_int n hn [] notdig_nil
   rw [List.append_nil] at h
   unfold snarfShift
-  rw [go_end _ _ _ _ _ _ h.1, packShift_eq _ _ _ (by omega) (by omega)]
+  rw [go_end _ _ _ _ _ _ h.1 (by omega), packShift_eq _ _ _ (by omega) (by omega)]
   have := xor_pack n 0 0 hn (by omega) (by omega)
   simpa using this
 
@@ -53,7 +53,7 @@ theorem snarf_bdays (n : Int) (hn : n ≠ 0 ∧ -366 ≤ n ∧ n ≤ 366) :
   have h := strtol_int n hn.2 ['B'] (notdig_B [])
   unfold snarfShift
   have e : (toString n ++ "B").toList = (toString n).toList ++ ['B'] := by rw [String.toList_append]; rfl
-  rw [e, go_B _ _ _ _ _ _ h.1, h.2, finB_val 0 (Or.inl rfl) _ _ _ (by omega) (by omega)]
+  rw [e, go_B _ _ _ _ _ _ h.1 (by omega), h.2, finB_val 0 (Or.inl rfl) _ _ _ (by omega) (by omega)]
   simp [hn.1]
 
 theorem snarf_bdays_keep_fwd (n : Nat) (hn : 1 ≤ n ∧ n ≤ 366) :
@@ -62,7 +62,7 @@ theorem snarf_bdays_keep_fwd (n : Nat) (hn : 1 ≤ n ∧ n ≤ 366) :
   unfold snarfShift
   have e : (toString n ++ "B+").toList = Nat.toDigits 10 n ++ ['B', '+'] := by
     rw [String.toList_append, nat_toList]; rfl
-  rw [e, go_Bplus _ _ _ _ _ _ h.1, h.2]
+  rw [e, go_Bplus _ _ _ _ _ _ h.1 (by omega), h.2]
   have e2 : (0 ||| (if (n : Int) ≥ 0 then 1 else 0) <<< 1) = 2 := by
     rw [if_pos (by omega)]; rfl
   rw [e2, finB_val 2 (Or.inr rfl) _ _ _ (by omega) (by omega)]
@@ -75,7 +75,7 @@ theorem snarf_bdays_keep_back (n : Nat) (hn : 1 ≤ n ∧ n ≤ 366) :
   unfold snarfShift
   have e : ("-" ++ toString n ++ "B-").toList = '-' :: Nat.toDigits 10 n ++ ['B', '-'] := by
     rw [String.toList_append, String.toList_append, nat_toList]; rfl
-  rw [e, go_Bminus _ _ _ _ _ _ h]
+  rw [e, go_Bminus _ _ _ _ _ _ h (by omega)]
   have e2 : (0 ||| (if -(n : Int) < 0 then 1 else 0) <<< 1) = 2 := by
     rw [if_pos (by omega)]; rfl
   rw [e2, finB_val 2 (Or.inr rfl) _ _ _ (by omega) (by omega)]
@@ -91,7 +91,7 @@ theorem snarf_both (d n : Int) (hd : d ≠ 0 ∧ -366 ≤ d ∧ d ≤ 366) (hn :
       = (toString d).toList ++ (',' :: ((toString n).toList ++ ['B'])) := by
     simp only [String.toList_append]
     simp
-  rw [e, go_comma _ _ _ _ _ _ _ h1.1, go_B _ _ _ _ _ _ h2.1, h2.2,
+  rw [e, go_comma _ _ _ _ _ _ _ h1.1 (by omega), go_B _ _ _ _ _ _ h2.1 (by omega), h2.2,
     finB_val 0 (Or.inl rfl) _ _ _ (by omega) (by omega)]
   by_cases h0 : n = 0
   · subst h0; simp [mkSh]
